@@ -128,11 +128,26 @@ def matrix(rng):
     return out
 
 
+LAST_ADVERTISE = []
+
+
 def run_scenarios(binary, wd, scs, tag="nl", parallel=1):
     out, logtxt = run_harness(binary, {"scenarios": scs, "parallel": parallel}, wd, tag=tag, test=TEST, timeout=1800)
     if out is None:
         raise RuntimeError("nodeloss harness run failed:\n" + logtxt)
+    global LAST_ADVERTISE
+    LAST_ADVERTISE = out.get("advertise") or LAST_ADVERTISE
     return out["scenarios"]
+
+
+def advertise_failures():
+    """a node bound to a specific address advertises exactly that address (host and port as a peer has to dial them: an IPv6
+    literal keeps its brackets); survivors reach each other - and clients' endpoints - through what was advertised"""
+    bad = []
+    for bind, adv in LAST_ADVERTISE:
+        if adv != bind:
+            bad.append((bind, adv))
+    return bad
 
 
 # ------------------------------------------------------------------ independent monitor
@@ -554,6 +569,10 @@ def run(ctx):
     log("[C18] %d scenarios on real 3-node clusters in %.1fs" % (len(scs), time.time() - t0))
 
     violations, known = [], []
+    for bind, adv in advertise_failures():
+        violations.append({"what": "C18 advertised address: a node bound to %s advertises %r to its peers - not an address they can dial to reach it" % (bind, adv),
+                           "found_input": True, "replay_obj": {"property": ID, "kind": "advertise", "bind": bind, "advertised": adv}})
+        break
     unreproduced = []
     fails = []
     for sc, o in zip(scs, outs):
@@ -648,8 +667,12 @@ def run(ctx):
 
 def replay(path, wd):
     obj = json.load(open(path))
-    sc = obj["case"]
     binary = build_harness(PKG, dirs=HDIRS)
+    if obj.get("kind") == "advertise":
+        run_scenarios(binary, wd, [], tag="replay")
+        print(json.dumps({"advertise": LAST_ADVERTISE, "failures": advertise_failures()}, indent=1))
+        return 0
+    sc = obj["case"]
     o = run_scenarios(binary, wd, [sc], tag="replay")[0]
     print(json.dumps({"scenario": describe(sc), "implementation": summary(sc, o), "monitor": monitor(sc, o)}, indent=1))
     if not o.get("panic"):
